@@ -224,7 +224,7 @@ def conclude(prop, tier, seed, mon, results, findings, infra, t0, out, write_evi
         for r in results[:3]:
             samples.append({"family": r.get("family"), "cid": r.get("cid"), "verdict": r["verdict"]})
     # coverage floors
-    floors = mon.floors(tier) if hasattr(mon, "floors") else {}
+    floors = mon.floors(tier) if (hasattr(mon, "floors") and write_evidence) else {}
     unmet = []
     for key, minimum in floors.items():
         have = clauses.get(key, counters.get(key, outcomes.get(key, 0)))
